@@ -184,7 +184,7 @@ func c48SeqIndex(k int, seq []int) int {
 
 func runC48(c *fw.Ctx) {
 	g := c.GitHome()
-	c.SetRule("P1: files = one of 3 section headers + NL + every body of <= max_body_tokens tokens (keys, '=', values, quotes, escapes, continuation, comments, blanks, tabs, newlines, a second header); files git refuses are outside the property; go-git's format.Decoder result is compared with `git config --list --null` as variable -> ordered values; P2: every boolean/integer setting go-git interprets x every spelling, against `git config --type=bool|int`; P3: generated Config values -> Marshal -> `git config --list` and go-git ReadConfig; a case is non-trivial when git reports at least one variable; distinct = (part, comparison class, variables, value shape) classes")
+	c.SetRule("P1: files = one of 3 section headers + every body of <= max_body_tokens tokens, and `[s] k =` + every value body (keys, '=', values, quotes, escapes, continuation, comments, blanks, tabs, newlines, a second header); files git refuses are outside the property; go-git's format.Decoder result is compared with `git config --list --null` as variable -> ordered values; P2: every boolean/integer setting go-git interprets x every spelling, against `git config --type=bool|int`; P3: generated Config values -> Marshal -> `git config --list` and go-git ReadConfig; a case is non-trivial when git reports at least one variable; distinct = (part, comparison class, variables, value shape) classes")
 	c.Assume("git 2.39.5 is the judge of which files are valid; includes are excluded from the generated files (they are only the batching vehicle: git parses an included file with the same parser); a transcription of git's parser predicts acceptance for batching only and is replayed against real git on the small space; a valueless key is compared as an empty value in P1 (format.Option cannot express it) and by meaning in P2")
 
 	c48P1(c, g)
@@ -195,10 +195,12 @@ func runC48(c *fw.Ctx) {
 // ---------------------------------------------------------------- P1
 
 func c48P1(c *fw.Ctx, g *fw.Git) {
-	headers := []string{"[s \"X\"]", "[s]", "[s.X]"}
+	// prefixes 0-2: a section header, then a free body (structure); prefix 3: a
+	// key and '=' are given and the body explores value syntax.
+	headers := []string{"[s \"X\"]\n", "[s]\n", "[s.X]\n", "[s]\n\tk ="}
 	// token order = simplicity rank for minimisation
 	tokens := []string{"k", "=", "v", "\n", " ", "K", "\t", "\"", "#c", ";c", "\\\"", "\\\\", "\\n", "\\\n", "[S]", "\\t"}
-	maxBody := []int{c.Pick(4, 5), c.Pick(3, 4), c.Pick(3, 4)}
+	maxBody := []int{c.Pick(3, 4), c.Pick(3, 4), c.Pick(3, 4), c.Pick(4, 5)}
 	confReject := c.Pick(2, 3)
 	c.Bound("p1_headers", headers)
 	c.Bound("p1_body_tokens", tokens)
@@ -208,7 +210,6 @@ func c48P1(c *fw.Ctx, g *fw.Git) {
 	content := func(h int, seq []int) []byte {
 		var b bytes.Buffer
 		b.WriteString(headers[h])
-		b.WriteByte('\n')
 		for _, t := range seq {
 			b.WriteString(tokens[t])
 		}
@@ -217,6 +218,8 @@ func c48P1(c *fw.Ctx, g *fw.Git) {
 	results := make([][]uint8, len(headers))
 	var nGitRejects, nModelOptimistic, nModelRejectGoGitAccepts atomic.Int64
 	const chunk = 1024
+	var suspects sync.Mutex
+	var suspectFiles [][]byte
 
 	// evalFiles compares a list of files (already known to be model-accepted or
 	// to be checked individually) and returns their classes.
@@ -279,7 +282,11 @@ func c48P1(c *fw.Ctx, g *fw.Git) {
 					results[h][i] = c48GitRejects
 					nGitRejects.Add(1)
 					if _, err, pv := c48Decode(d); err == nil && pv == nil {
-						nModelRejectGoGitAccepts.Add(1)
+						if nModelRejectGoGitAccepts.Add(1) <= 5000 {
+							suspects.Lock()
+							suspectFiles = append(suspectFiles, d)
+							suspects.Unlock()
+						}
 					}
 					continue
 				}
@@ -302,6 +309,19 @@ func c48P1(c *fw.Ctx, g *fw.Git) {
 	c.Extra("p1_files_git_rejects", nGitRejects.Load())
 	c.Extra("p1_model_accepts_but_git_rejects", nModelOptimistic.Load())
 	c.Extra("p1_model_rejects_but_gogit_accepts", nModelRejectGoGitAccepts.Load())
+
+	// files the model rejects but go-git accepts are where a wrong model would
+	// hide most: each goes to real git on its own (first 5000).
+	c.ParDo(len(suspectFiles), 0, func(i int) {
+		dir := c.TempDir("c48-susp")
+		defer os.RemoveAll(dir)
+		f := filepath.Join(dir, "f")
+		c.Must(os.WriteFile(f, suspectFiles[i], 0o644), "write")
+		if r := g.Run("config", "--file", f, "--list", "--null"); r.Code == 0 {
+			fw.Abort("config parser model rejects a file real git accepts: %q", suspectFiles[i])
+		}
+	})
+	c.Extra("p1_model_rejections_confirmed_by_git", len(suspectFiles))
 
 	// conformance of the model's rejections: on the small space every file the
 	// model rejects is given to real git on its own.
@@ -371,8 +391,21 @@ func c48P1(c *fw.Ctx, g *fw.Git) {
 		}, func(s []int) bool { return msingle(f.h, s) == f.cls })
 		// prefer the simplest header that still fails the same way
 		hh := f.h
-		if hh != 1 && msingle(1, min) == f.cls {
+		if (hh == 0 || hh == 2) && msingle(1, min) == f.cls {
 			hh = 1
+		}
+		if hh == 3 { // express the case under the plain "[s]" header when it fails the same way there
+			cand := append([]int{0, 1}, min...) // tokens "k", "="
+			if msingle(1, cand) == f.cls {
+				hh = 1
+				min = fw.MinSeq(cand, func(x int) []int {
+					var lower []int
+					for l := 0; l < x; l++ {
+						lower = append(lower, l)
+					}
+					return lower
+				}, func(s []int) bool { return msingle(1, s) == f.cls })
+			}
 		}
 		data := content(hh, min)
 		key := fmt.Sprintf("P1 %s: %s", c48ClassName[int(f.cls)], fw.Q(string(data)))
@@ -781,18 +814,30 @@ func c48P3(c *fw.Ctx, g *fw.Git) {
 		return x.kind+x.val+x.field+x.sub < y.kind+y.val+y.field+y.sub
 	})
 	perKV := map[string]map[string]bool{}
+	perKFV := map[string]map[string]bool{}
+	fieldKind := map[string]string{}
+	for _, st := range setters {
+		fieldKind[st.name] = st.sub
+	}
 	for _, f := range fails {
 		k := f.kind + "\x00" + f.val
 		if perKV[k] == nil {
 			perKV[k] = map[string]bool{}
 		}
 		perKV[k][f.field] = true
+		k2 := k + "\x00" + f.field
+		if perKFV[k2] == nil {
+			perKFV[k2] = map[string]bool{}
+		}
+		perKFV[k2][f.sub] = true
 	}
 	for _, f := range fails {
 		k := f.kind + "\x00" + f.val
 		var key string
 		if len(perKV[k]) >= 3 {
 			key = fmt.Sprintf("P3 %s: value %s (many fields)", f.kind, fw.Q(f.val))
+		} else if len(perKFV[k+"\x00"+f.field]) == len(subNames[fieldKind[f.field]]) {
+			key = fmt.Sprintf("P3 %s: %s value %s (every subsection name)", f.kind, f.field, fw.Q(f.val))
 		} else {
 			key = fmt.Sprintf("P3 %s: %s[%s] value %s", f.kind, f.field, fw.Q(f.sub), fw.Q(f.val))
 		}
